@@ -6,6 +6,11 @@ COMMON_MODELLED = [
     "reflect outcomes as data (DESIGN §4.4)", "user closures as pure functions",
 ]
 
+C10_LEVEL = ("proof, partial: proof at lock-segment granularity (mutual exclusion, linearizability for every schedule / number of threads / "
+                 "program length, no deadlock, writes under the lock, tied to the source by decide-checked lock-placement facts); word-level data "
+                 "races are not expressible in the model - that clause is carried as known finding K-C10-race, with the race detector "
+                 "(16-goroutine stress, thorough tier) as supporting evidence")
+
 PROPS = {
     "C01": {
         "lean": ["Stackage.Props.C01"],
@@ -215,6 +220,27 @@ PROPS = {
                         "nil *Stack / *Condition elements (they satisfy Interface) are part of the random stream since repair F31 "
                         "(revealDescend skips them); VERIF_C20_NILPTR=0 leaves them out"],
     },
+    "C10": {
+        "lean": ["Stackage.Props.C10"],
+        "open": "Stackage Stackage.Stk Stackage.Conc",
+        "streams": [{"name": "sched", "quick": 3000, "thorough": 60000}],
+        "level": C10_LEVEL,
+        "level_text": C10_LEVEL,
+        "level_note": "Trusted: Lean kernel; axioms propext, Classical.choice, Quot.sound; extractor (lock-placement facts read syntactically: position of "
+                      "lock() relative to the first content read); the scheduler correspondence (bounded enumeration, supporting evidence); sync.Mutex as an "
+                      "atomic acquire/release; a lock segment is atomic - memory-level races are outside the model (known finding K-C10-race)",
+        "rule": "deterministic scheduler on the VerifHook lock points: 2-3 goroutines x 1-3 content mutators (quick: 3 x <=2) on mutex-enabled stacks "
+                "of length 0..3, every kind, LIFO/FIFO, capacity none or within 2 of the length, occasional negative/forward index options and nil "
+                "elements; per configuration ALL interleavings at lock-acquisition granularity when there are <= 60 (thorough: <= 2000), else a random "
+                "sample of 40 (400); observed: every call's return values, final content, IsInit, whether content changed only between lock.held and "
+                "lock.released, deadlock watchdog; compared with the Lean interleaving model on the same schedule and checked for membership in the set "
+                "of sequential outcomes; distinct = distinct case text; non-trivial = at least two threads and a schedule that switches back to a thread it left",
+        "modelled": COMMON_MODELLED + ["sync.Mutex as an atomic acquire/release without fairness", "the Go scheduler at hook (lock-segment) granularity",
+                                       "a lock segment is atomic: word-level interleavings are not represented"],
+        "assumptions": ["no push policy installed", "lengths < 2^62, ints are 64-bit",
+                        "only the eight content mutators run concurrently (option setters, Defrag, Reveal, Transfer are not in the alphabet)"],
+        "explanation": "S is the set of outcomes of all sequential orders consistent with program order; the implementation's observation must be a member",
+    },
 }
 
 
@@ -365,6 +391,13 @@ def nontrivial(pid, payload):
         return sum(1 for t in toks if t in ("K", "C")) >= 3
     ops = payload.rsplit(" | ", 1)[-1].split(" ; ")
     kinds = {o.split(" ")[0] for o in ops if o}
+    if pid == "C10":   # at least two threads, and the schedule really interleaves them (not one thread after the other)
+        sec = payload.split(" | ")
+        if len(sec) < 3:
+            return False
+        turns = sec[2].split()
+        blocks = [t for k, t in enumerate(turns) if k == 0 or turns[k - 1] != t]
+        return len(sec[1].split(" / ")) >= 2 and len(blocks) > len(set(turns))
     if pid == "C15":
         return " [ ]" not in payload.split(" | ")[0]     # non-empty source
     if pid == "C12":
@@ -464,6 +497,14 @@ def distribution(pid, cases):
         return _c20_distribution(cases)
     d = {"ops": {}, "sizes": {}}
     for c in cases:
+        if pid == "C10" and c.count(" | ") >= 3:
+            progs = c.split(" | ")[2].split(" / ")
+            k = "%d threads" % len(progs)
+            d["sizes"][k] = d["sizes"].get(k, 0) + 1
+            for pr in progs:
+                for o in pr.split(" ; "):
+                    d["ops"][o.split(" ")[0]] = d["ops"].get(o.split(" ")[0], 0) + 1
+            continue
         ops = c.rsplit(" | ", 1)[-1].split(" ; ")
         b = min(len(ops) // 10 * 10, 100)
         d["sizes"]["%d-%d ops" % (b, b + 9)] = d["sizes"].get("%d-%d ops" % (b, b + 9), 0) + 1
@@ -472,3 +513,28 @@ def distribution(pid, cases):
             d["ops"][k] = d["ops"].get(k, 0) + 1
     return d
 NOT_CLAIMED = {}
+
+
+# ---- relational specifications: the S line is a set of admissible observations separated by " || " ----------------------------------
+def resolve(pid, stream, impl, spec):
+    """pick from a set-valued specification line the member the implementation produced (or, for the report, the closest one)"""
+    if " || " not in spec and pid != "C10":
+        return spec
+    alts = spec.split(" || ")
+    if impl in alts:
+        return impl
+    def score(a):
+        ta, ti = a.split(" ; "), (impl or "").split(" ; ")
+        return sum(1 for x, y in zip(ta, ti) if x == y)
+    return max(alts, key=score)
+
+
+_extra_checks_c11 = extra_checks
+
+
+def extra_checks(run):
+    """property-specific extra steps; each returns a list of (name, detail, replay text) violations"""
+    if run.pid == "C10":
+        import c10_extra
+        return c10_extra.extra_checks(run)
+    return _extra_checks_c11(run)
